@@ -59,7 +59,7 @@ theorem C17_name_routes (e : Entity) :
       [ refField b!"j5.state.v1" b!"StateMetadata",
         .objectRef [] (componentName e b!"Keys") true [],
         .objectRef [] (componentName e b!"Data") false [],
-        .enumRef [] (componentName e b!"Status") [] true ] ∧
+        .enumRef [] (componentName e b!"Status") [] (some (defaultFilters e)) ] ∧
     (eventObject e).props.map (·.schema) =
       [ refField b!"j5.state.v1" b!"EventMetadata",
         .objectRef [] (componentName e b!"Keys") true [],
